@@ -113,10 +113,12 @@ and status (cell `g` is found at active index `rank t.act g` resp. `rank t'.act 
 * `NoTop T` — no keyword with the "distribute top layer" flag.  This one is NECESSARY: with such
   a keyword the statement is false of the code (`toplayer_breaks_independence` below and
   design.d/C12.md, finding 2).
-* `P.NoOperR` — no OPERATER keyword.  Not believed necessary; OPERATER creates its source array
-  only when the region has an active cell, so the SET of existing arrays depends on the ACTNUM
-  and the one-cell projection used in the proof does not cover it.
-Full shape: the same statement without `P.NoOperR`. -/
+* `P.NoOperR` — no OPERATER keyword.  OPERATER creates its source array only when the region has
+  an ACTIVE cell, so the SET of stored arrays depends on the ACTNUM and the conclusion as stated
+  here (equal stores) is false with it; the statement about *views* (stored array, or the freshly
+  initialised one when absent — which is what every reader of the store sees) is expected to
+  hold and is NOT proved.
+Full shape: view equality at `g` for every keyword, without `P.NoOperR`. -/
 theorem inactive_independence_partial {α : Type} [RealOps α] (D : Dims) (hD : DPos D) (T : Tables α)
     (hT : NoTop T) (P : Prog α) (hP : P.NoOperR) (A A' : List Bool) (hA : A.length = D.size)
     (hA' : A'.length = D.size) (t t' : St α)
